@@ -143,22 +143,11 @@ Proof.
 Qed.
 
 (* ---------- the guard holds for such sequences ---------- *)
-Lemma ustate_eqb_refl u : ustate_eqb u u = true.
-Proof. destruct u as [n k]. unfold ustate_eqb. cbn. rewrite Nat.eqb_refl. destruct k; reflexivity. Qed.
-Lemma ou_eqb_refl u : ou_eqb u u = true.
-Proof. destruct u; cbn; auto using ustate_eqb_refl. Qed.
-Lemma getter_ok_memo g v : memo_ok v -> getter_ok g v = true.
+Lemma op_ok_plain i o : plain_op o = true -> op_ok i o = true.
 Proof.
-  intros M. unfold getter_ok. destruct (use_getter g v) as [cu v1] eqn:E.
-  destruct (use_getter_memo_ok _ _ _ _ E M) as [_ Hc]. cbn. rewrite Hc. apply ou_eqb_refl.
-Qed.
-
-Lemma op_ok_plain i s o : R i s -> fview i = None -> plain_op o = true -> op_ok i o = true.
-Proof.
-  intros H F Hp. destruct (cur_memo_root i s H F) as [M K].
-  destruct o; try discriminate; unfold op_ok; rewrite ?K, ?(getter_ok_memo _ _ M), ?orb_true_r; auto.
-  - destruct n as [n|]; [|discriminate]. unfold plain_op in Hp. cbn [size_ok]. rewrite Hp. reflexivity.
-  - destruct n as [n|]; [|discriminate]. unfold plain_op in Hp. cbn [size_ok]. rewrite Hp. rewrite orb_true_r. reflexivity.
+  intros Hp. destruct o; try discriminate; unfold op_ok; auto.
+  - destruct n as [n|]; [|discriminate]. exact Hp.
+  - destruct n as [n|]; [|discriminate]. unfold plain_op in Hp. cbn [size_ok]. rewrite Hp. apply orb_true_r.
 Qed.
 Lemma istep_plain_fview i o : fview i = None -> plain_op o = true -> fview (fst (istep i o)) = None.
 Proof.
@@ -173,10 +162,9 @@ Lemma guard_plain : forall ops i s, R i s -> fview i = None -> forallb plain_op 
   guard_from i (ops ++ [All]) = true.
 Proof.
   induction ops as [|o t IH]; intros i s H F Hp.
-  - cbn [app guard_from]. rewrite andb_true_r. unfold op_ok.
-    destruct (cur_memo_root i s H F) as [M K]. rewrite (eff_u_memo_ok _ M), ou_eqb_refl. apply orb_true_r.
+  - reflexivity.
   - cbn [forallb] in Hp. apply andb_prop in Hp. destruct Hp as [H1 H2].
-    cbn [app guard_from]. pose proof (op_ok_plain i s o H F H1) as G. rewrite G. cbn [andb].
+    cbn [app guard_from]. pose proof (op_ok_plain i o H1) as G. rewrite G. cbn [andb].
     destruct (step_sim i s o H G) as [_ R']. apply (IH _ _ R'); [apply istep_plain_fview; assumption|exact H2].
 Qed.
 
